@@ -32,8 +32,11 @@ func (s *Sess) PostForm(b, k string, body []byte, m []KV) Resp {
 
 // the same operations through the Go Backend API, reported in the shape of HTTP observations
 func (s *Sess) apiPut(b, k string, body []byte, m []KV) {
-	meta := map[string]string{}
+	var meta map[string]string // nil when there is nothing to store, as a caller of the Go API would pass it
 	for _, kv := range m {
+		if meta == nil {
+			meta = map[string]string{}
+		}
 		meta[http.CanonicalHeaderKey(kv.K)] = kv.V
 	}
 	var r Resp
